@@ -17,6 +17,7 @@ type Contract struct {
 	Lemmas   []*Lemma
 	OnStores []*OnStore
 	OnCalls  []*OnCall
+	OnMapUpdates []*OnStore // assertions at m[k] = v where m was loaded from the named field ($key, $value, $was, $owner)
 	NoStores []string // struct field names that the function (and what it inlines) must never store to
 	FullLoops []string // loop keys: the loop is left only through its header test
 }
